@@ -2,19 +2,18 @@
 import itertools
 import os
 
+import kv
 from kv import Case, xn, xb, xl, xlist, xz
 
 ID = "C16"
 MODULE = "C16"
-IMPORTS = "Bytes RustStd Registry PresentLine"
+IMPORTS = "Bytes RustStd Registry PresentLine RunOrder RustStdProofs RegistryProofs PresentLineProofs RunOrderProofs"
 PROFILES = ("dev",)
-# C16_ORIG=1 selects the model of the code as it was before the two repairs (reversed remove comparator,
-# data_start = pos + 2 on CRLF): used to reproduce the defects through the harness on the unrepaired tree.
-ORIG = bool(os.environ.get("C16_ORIG"))
-REG = "reg.ops_orig" if ORIG else "reg.ops"
-PARSE = "present.parse_orig" if ORIG else "present.parse"
-
-THEOREMS = []   # filled in below (kept at the end of the file for readability)
+# C16_V0=1 selects the models of the code as it was before the repairs aa785b7 / e1abeb3 (reversed remove
+# comparator, data_start = pos + 2 on CRLF): used to reproduce the defects through the harness on the unrepaired tree.
+ORIG = bool(os.environ.get("C16_V0"))
+REG = "reg.ops_v0" if ORIG else "reg.ops"
+PARSE = "present.parse_v0" if ORIG else "present.parse"
 
 KINDS = ["prime", "prepare_fn", "present_fn", "package", "post", "prepare_single", "present_internal", "present_file"]
 I32_MIN, I32_MAX = -2**31, 2**31 - 1
@@ -47,6 +46,7 @@ def registry_cases(rng, tier):
                                   (1, I32_MIN + 1)], "i32-min"))
         cases.append(seq_case(k, [(0, I32_MAX), (1, I32_MAX), (1, I32_MAX), (2, I32_MAX), (0, I32_MIN), (2, I32_MIN), (2, 0)], "i32-max"))
     cases.append(reg_case(1, [], "new"))
+    cases.append(Case("reg.present_fn_getter", xl(), "reg.present_fn_getter", {"kind": "getter"}))
     # Extensions::new(): builtin priorities (prime 16777216, 16777215, -100; package 128, 10, -1327)
     for _ in range(60 if tier == "quick" else 600):
         n = rng.randrange(1, 9)
@@ -185,10 +185,24 @@ MALFORMED = [
 ]
 
 
+def words(rng):
+    """a line as the theorem present_line_spec quantifies it: words joined by single spaces; an empty word = one more space"""
+    n = rng.choice([0, 1, 1, 2, 3, 4, 5, 6, 8, 12])
+    ws = []
+    for _ in range(n):
+        r = rng.random()
+        ws.append(b"" if r < 0.2 else b"&>" if r < 0.4 else token(rng))
+    return ws
+
+
+def line_case(ws, crlf, rest, kind):
+    return Case("present.line", xl(xlist([xb(w) for w in ws]), xn(1 if crlf else 0), xb(rest)), "present.spec_line", {"kind": kind})
+
+
 def present_cases(rng, tier):
     cases = []
     for d in MALFORMED:
-        cases.append(Case(PARSE, xb(d), None, {"kind": "directed"}))
+        cases.append(Case(PARSE, xb(d), "present.nopanic", {"kind": "directed"}))
     # the two unit tests of utils/src/extensions.rs + the confirmed defects
     for d in [b"!> tmpl standard.html md.html &> allow-ips 10.0.0.16 &>\nFile's contents.\n",
               b"!>  tmpl standard.html  md.html  &>\nFile's contents.\n",
@@ -216,16 +230,154 @@ def present_cases(rng, tier):
             d = b"!> " + bytes(rng.choice(alphabet) for _ in range(rng.randrange(0, 24)))
         else:
             d = bytes(rng.randrange(256) for _ in range(rng.randrange(0, 16)))
-        cases.append(Case(PARSE, xb(d), None, {"kind": "malformed"}))
-    cases.append(Case("present.empty_args", xl(), None, {"kind": "empty-args"}))
+        cases.append(Case(PARSE, xb(d), "present.nopanic", {"kind": "malformed"}))
+    # structured lines: the right-hand side of the theorem present_line_spec evaluated on the words
+    for ws, crlf, rest in [([b"tmpl", b"standard.html", b"md.html", b"&>", b"allow-ips", b"10.0.0.16", b"&>"], False, b"File's contents.\n"),
+                           ([b"", b"tmpl", b"standard.html", b"", b"md.html", b"", b"&>"], False, b"File's contents.\n"),
+                           ([], False, b""), ([], True, b"x"), ([b""], True, b""), ([b"a"], True, b""), ([b"a"], True, b"body"),
+                           ([b"&>"], False, b"r"), ([b"&>", b"a"], False, b"r"), ([b"", b"&>"], False, b"r"), ([b"", b"&>", b"a"], False, b"r"),
+                           ([b"a", b"&>"], True, b"r"), ([b"a", b"&>", b"&>", b"b"], True, b"r"), ([b"a", b"&>", b"", b"&>", b"b", b"c"], True, b"r")]:
+        cases.append(line_case(ws, crlf, rest, "corpus-words"))
+    for _ in range(6000 if tier == "quick" else 120000):
+        cases.append(line_case(words(rng), rng.random() < 0.5, rng.choice(BODIES), "grammar-words"))
+    cases.append(Case("present.empty_args", xl(), "present.empty_args", {"kind": "empty-args"}))
+    return cases
+
+
+# ------------------------------------------------------------------------------------------
+# run order: registry edits with marker extensions, then real requests
+# ------------------------------------------------------------------------------------------
+PATHS = [b"/", b"/a", b"/b.html", b"/c.txt", b"/d/e.html", b"/x.y.md", b"/.hid", b"/zz", b"/d/f"]
+OVERRIDES = [b"/./ov1", b"/./ov2"]
+PREFIXES = [b"/", b"/a", b"/d/", b"/b", b"/x", b"/zz", b"/nomatch"]
+FILE_EXTS = [b"html", b"txt", b"md", b"y"]
+INTERNAL = [b"tmpl", b"hide", b"x", b"allow-ips", b"a"]
+PBODIES = [b"plain", b"", b"!> tmpl a b &> hide\nBODY", b"!> hide\r\nX", b"!> x\r\n", b"!> x\n", b"!>  tmpl   standard.html  md.html  &>\r\nrest",
+           b"!> unknown arg &> hide 1 2 3 &> a\nrest", b"!> a &> a &> a x\n\n", b"!> hide", b"<html>"]
+# first lines outside the grammar of the property (the line begins "!>  &> "; a word is not UTF-8; a CR inside the line): the parser answers
+# None or splits at the CR; these are compared with the model only (no specification applies)
+ODD_BODIES = [b"!>  &> hide\nr", b"!> \xff\nr", b"!> a\rb hide\nr", b"!> hide \xc3\nr"]
+MARK = xl(xn(3))
+
+
+def edit(kind, code, prio, key=b"", payload=MARK, body=b""):
+    return xl(xn(kind), xn(code), xz(prio), xb(key), payload, xb(body))
+
+
+def order_case(edits, paths, kind, spec=True):
+    return Case("order.run", xl(xlist(edits), xlist([xb(p) for p in paths])), "order.spec" if spec else None, {"kind": kind})
+
+
+def rand_edit(rng, prios, kinds=(0, 0, 1, 1, 2, 3, 3, 4, 4, 5, 5, 6, 6, 7)):
+    kind = rng.choice(kinds)
+    code = rng.choice([0, 0, 0, 1, 1, 2]) if kind < 5 else rng.choice([0, 0, 0, 2])
+    prio = rng.choice(prios)
+    body = rng.choice(PBODIES) if rng.random() < 0.7 else grammar_line(rng) + rng.choice(BODIES)
+    if kind == 0:
+        return edit(0, code, prio, payload=xl(xn(0), xb(rng.choice(PATHS)), xb(rng.choice(PATHS + OVERRIDES))))
+    if kind == 1:
+        return edit(1, code, prio, payload=xl(xn(1), xb(rng.choice(PREFIXES)), xb(body)))
+    if kind == 2:
+        return edit(2, code, prio, payload=xl(xn(2), xb(rng.choice(PREFIXES))))
+    if kind in (3, 4):
+        return edit(kind, code, prio)
+    if kind == 5:
+        return edit(5, code, 0, key=rng.choice(PATHS + OVERRIDES), body=body)
+    if kind == 6:
+        return edit(6, code, 0, key=rng.choice(INTERNAL))
+    return edit(7, code, 0, key=rng.choice(FILE_EXTS))
+
+
+def order_corpus():
+    cases = []
+    # primes: the later one sees the rewrite of the earlier one; an override URI selects the path-bound Prepare
+    e = [edit(0, 0, 5, payload=xl(xn(0), xb(b"/a"), xb(b"/b.html"))), edit(0, 0, 3, payload=xl(xn(0), xb(b"/b.html"), xb(b"/c.txt"))),
+         edit(0, 1, 5, payload=xl(xn(0), xb(b"/c.txt"), xb(b"/./ov1"))),
+         edit(5, 0, 0, key=b"/./ov1", body=b"!> tmpl x y &> hide\r\nBODY"), edit(5, 0, 0, key=b"/c.txt", body=b"plain"),
+         edit(1, 0, 1, payload=xl(xn(1), xb(b"/"), xb(b"!> hide\nfn1"))), edit(1, 0, 7, payload=xl(xn(1), xb(b"/zz"), xb(b"fn7"))),
+         edit(2, 0, 2, payload=xl(xn(2), xb(b"/"))), edit(2, 0, 9, payload=xl(xn(2), xb(b"/c"))), edit(7, 0, 0, key=b"html"), edit(7, 0, 0, key=b"txt"),
+         edit(6, 0, 0, key=b"tmpl"), edit(6, 0, 0, key=b"hide"),
+         edit(3, 0, 1), edit(3, 0, 10), edit(3, 1, 10), edit(4, 0, -1), edit(4, 0, 4), edit(4, 2, 4), edit(4, 0, 6)]
+    cases.append(order_case(e, [b"/a", b"/b.html", b"/zz", b"/q.html", b"/c.txt"], "corpus"))
+    # the three repaired defects, through real requests
+    for k in range(5):
+        pl = [xl(xn(0), xb(b"/a"), xb(b"/zz")), xl(xn(1), xb(b"/"), xb(b"b")), xl(xn(2), xb(b"/")), MARK, MARK][k]
+        cases.append(order_case([edit(k, 0, 10, payload=pl), edit(k, 0, 5, payload=pl), edit(k, 0, 1, payload=pl), edit(k, 2, 10), edit(k, 2, 1),
+                                 edit(1, 0, 0, payload=xl(xn(1), xb(b"/"), xb(b"x")))], [b"/a"], "corpus-remove"))
+    cases.append(order_case([edit(5, 0, 0, key=b"/a", body=b"!> x\r\n"), edit(5, 0, 0, key=b"/zz", body=b"!> hide y\r\nbody"), edit(6, 0, 0, key=b"hide")],
+                            [b"/a", b"/zz"], "corpus-crlf"))
+    cases.append(order_case([edit(2, 0, 1, payload=xl(xn(2), xb(b"/"))), edit(7, 0, 0, key=b"html"), edit(5, 0, 0, key=b"/b.html", body=b"x")],
+                            [b"/b.html", b"/a"], "corpus-empty-args"))
+    return cases
+
+
+def order_cases(rng, tier):
+    cases = order_corpus()
+    small = [-1, 0, 1, 2]
+    for _ in range(700 if tier == "quick" else 9000):
+        n = rng.randrange(1, 15)
+        prios = rng.choice([small, small, small, [I32_MIN, I32_MIN + 1, 0], [16777216, 16777215, 128, 10, -100, -1327]])
+        edits = [rand_edit(rng, prios) for _ in range(n)]
+        paths = [rng.choice(PATHS) for _ in range(rng.randrange(1, 4))]
+        cases.append(order_case(edits, paths, "order-random"))
+    # one kind at a time, dense: many edits on one vector, then one request
+    for _ in range(150 if tier == "quick" else 3000):
+        kind = rng.randrange(5)
+        edits = [rand_edit(rng, small, kinds=(kind,)) for _ in range(rng.randrange(2, 10))]
+        edits.append(edit(5, 0, 0, key=b"/a", body=rng.choice(PBODIES)))
+        edits.append(edit(6, 0, 0, key=rng.choice(INTERNAL)))
+        cases.append(order_case(edits, [rng.choice([b"/a", b"/b.html", b"/zz"])], "order-one-kind"))
+    # targeted: an override URI selecting a path-bound Prepare; several matching predicate-bound Prepares; several registered
+    # extensions on the '!> ' line with arguments; several matching present_fn; several Package / Post
+    for _ in range(240 if tier == "quick" else 5000):
+        path = rng.choice(PATHS)
+        ov = rng.choice(OVERRIDES)
+        names = rng.sample(INTERNAL, rng.randrange(2, 5))
+        line = b"!> " + b" &> ".join(n + b"".join(b" " + token(rng) for _ in range(rng.randrange(0, 3))) for n in names) + rng.choice([b"\n", b"\r\n", b" &>\n"]) + b"B"
+        edits = []
+        if rng.random() < 0.6:
+            edits.append(edit(0, rng.choice([0, 1]), rng.choice(small), payload=xl(xn(0), xb(path), xb(ov))))
+            edits.append(edit(5, 0, 0, key=ov, body=line))
+            if rng.random() < 0.5:
+                edits.append(edit(5, 0, 0, key=path, body=b"by-path"))
+        for _ in range(rng.randrange(2, 5)):
+            edits.append(edit(1, rng.choice([0, 1]), rng.choice(small), payload=xl(xn(1), xb(rng.choice([b"/", b"/", path])), xb(rng.choice([line, b"fn", b"!> hide x\nfn"])))))
+        for _ in range(rng.randrange(0, 3)):
+            edits.append(edit(2, rng.choice([0, 1]), rng.choice(small), payload=xl(xn(2), xb(rng.choice([b"/", path])))))
+        for n in rng.sample(INTERNAL, rng.randrange(2, 6)):
+            edits.append(edit(6, 0, 0, key=n))
+        for k in (3, 4):
+            for _ in range(rng.randrange(1, 4)):
+                edits.append(edit(k, rng.choice([0, 1, 1]), rng.choice(small)))
+        rng.shuffle(edits)
+        cases.append(order_case(edits, [path], "order-targeted"))
+    for body in ODD_BODIES:
+        cases.append(order_case([edit(5, 0, 0, key=b"/a", body=body), edit(6, 0, 0, key=b"hide"), edit(3, 0, 1)], [b"/a"], "order-outside-grammar", spec=False))
     return cases
 
 
 def generate(rng, tier):
-    return registry_cases(rng, tier) + bsearch_cases(rng, tier) + present_cases(rng, tier)
+    return registry_cases(rng, tier) + bsearch_cases(rng, tier) + present_cases(rng, tier) + order_cases(rng, tier)
+
+
+def spec_ok(c, i, s):
+    if c.spec == "present.nopanic":
+        # present_never_panics on the implementation's output: Ok; Some => data_start <= len and body = data[data_start..]
+        if not i.startswith("(L (N 0)"):
+            return False
+        x = kv.xparse(i)
+        opt = x[1][1][1]
+        if not opt:
+            return True
+        parsed = opt[0][1]
+        ds, body, data = parsed[1][1], parsed[2][1], c.x[1]
+        return ds <= len(data) and body == data[ds:]
+    return i == s
 
 
 def signature(c, m):
+    if c.comp == "reg.present_fn_getter":
+        return "getter"
     if c.comp.startswith("reg."):
         return "steps=%d" % len(c.x[1][1][1]) if c.x[1][1][1] else None
     if c.comp == "std.bsearch":
@@ -236,6 +388,10 @@ def signature(c, m):
         if c.x[1][:3] == b"!> ":
             return "none-after-prefix" if m.startswith("(L (N 0)") else "panic"
         return None
+    if c.comp == "present.line":
+        return "words=%d" % len(c.x[1][0][1]) if c.x[1][0][1] else None
+    if c.comp == "order.run":
+        return "events=%d" % m.count("(L (N ") if "(N 200)" in m else None
     return "x"
 
 
@@ -251,12 +407,104 @@ def directed(rng, mismatches):
                 cases.append(seq_case(k, list(ops), "directed"))
     for _ in range(20000):
         cases.append(Case(PARSE, xb(grammar_line(rng) + rng.choice(BODIES)), "present.spec", {"kind": "directed"}))
+        cases.append(line_case(words(rng), rng.random() < 0.5, rng.choice(BODIES), "directed"))
+    cases.append(Case("present.empty_args", xl(), "present.empty_args", {"kind": "directed"}))
+    cases += order_corpus()
+    for _ in range(1500):
+        edits = [rand_edit(rng, [-1, 0, 1, 2]) for _ in range(rng.randrange(1, 10))]
+        cases.append(order_case(edits, [rng.choice(PATHS) for _ in range(2)], "directed"))
     return cases
 
 
-RULE = "filled below"
-ASSUMPTIONS = []
-TRUSTED = []
-LEVEL_TEXT = ""
-LEVEL_NOTE = ""
-TECHNIQUE = "Coq proof (refinement / parser correctness for all inputs) + differential correspondence model vs. implementation"
+THEOREMS = [
+    ("binary_search_total",
+     'forall (T : Type) (f : T -> comparison) (l : list T), exists r, binary_search_by f l = Some r'),
+    ("binary_search_ok_iff",
+     'forall (T : Type) (f : T -> comparison) (l : list T) (i : nat), partitioned f l -> (binary_search_by f l = Some (BOk i) <-> exists x, nth_error l i = Some x /\\ f x = Eq)'),
+    ("binary_search_err_iff",
+     'forall (T : Type) (f : T -> comparison) (l : list T) (i : nat), partitioned f l -> (binary_search_by f l = Some (BErr i) <-> insertion_point f l i)'),
+    ("binary_search_insertion_point_unique",
+     'forall (T : Type) (f : T -> comparison) (l : list T) (i j : nat), insertion_point f l i -> insertion_point f l j -> i = j'),
+    ("registry_refines_map",
+     'forall (A : Type) (ops : list (op A)) (l : list (Z * A)), desc l -> run_model l ops = run_ref l ops'),
+    ("registry_refines_map_from_empty",
+     'forall (A : Type) (ops : list (op A)), run_model [] ops = run_ref [] ops'),
+    ("reference_descending",
+     "forall (A : Type) (ops : list (op A)) (l : list (Z * A)), desc l -> Forall (fun r => match r with Ok l' => desc l' | _ => True end) (run_ref l ops)"),
+    ("reference_add_is_map_update",
+     'forall (A : Type) (l : list (Z * A)) (p : Z) (a : A) (q : Z), desc l -> ref_get (ref_add l p a) q = if (q =? p)%Z then Some a else ref_get l q'),
+    ("reference_remove_is_map_remove",
+     'forall (A : Type) (l : list (Z * A)) (p q : Z), ref_get (ref_remove l p) q = if (q =? p)%Z then None else ref_get l q'),
+    ("no_override_takes_greatest_free",
+     "forall (A : Type) (l : list (Z * A)) (p : Z), desc l -> match ref_free_below l p with | Some p' => (p' <= p)%Z /\\ ref_mem l p' = false /\\ (forall q, (p' < q <= p)%Z -> ref_mem l q = true) /\\ ((i32_min <= p)%Z -> (i32_min <= p')%Z) | None => forall q, (i32_min <= q <= p)%Z -> ref_mem l q = true end"),
+    ("extensions_refine_reference",
+     'forall (e : extensions) (rs : list request), ext_desc e -> ext_run remove_sorted_list e rs = ext_run_ref e rs'),
+    ("extensions_new_descending",
+     'ext_desc extensions_empty /\\ ext_desc extensions_new'),
+    ("remove_sorted_list_v0_refuted",
+     'exists (l : list (Z * N)) (p : Z), desc l /\\ remove_sorted_list_v0 l p <> Ok (ref_remove l p)'),
+    ("present_never_panics",
+     'forall data : bytes, exists r, present_parse data = Ok r /\\ match r with | Some p => (p_data_start p <= length data)%nat /\\ p_body p = skipn (p_data_start p) data | None => True end'),
+    ("present_line_spec",
+     'forall (ws : list bytes) (crlf : bool) (rest : bytes), line_words_ok ws -> present_parse (render_line ws crlf ++ rest) = Ok (Some {| p_entries := group_words None (nonempty_words ws); p_data_start := length (render_line ws crlf); p_body := rest |})'),
+    ("present_v0_refuted",
+     'present_parse_v0 (B "!> a" ++ [13; 10]) = Panic /\\ (exists p, present_parse_v0 (B "!> a" ++ [13; 10] ++ B "body") = Ok (Some p) /\\ p_body p = B "ody") /\\ empty_args_next_v0 = Panic /\\ empty_args_next = Ok None'),
+    ("prime_sequential",
+     'forall (l1 : list (Z * prime_ext)) (i : Z) (pr : prime_ext) (l2 : list (Z * prime_ext)) (st : bytes * option bytes), snd (resolve_prime (l1 ++ (i, pr) :: l2) st) = snd (resolve_prime l1 st) ++ EPrime i (fst (prime_state l1 st)) :: snd (resolve_prime l2 (prime_apply pr (prime_state l1 st))) /\\ length (snd (resolve_prime l1 st)) = length l1'),
+    ("prime_all_once_in_order",
+     'forall (l : list (Z * prime_ext)) (st : bytes * option bytes), map event_prio (snd (resolve_prime l st)) = map (fun e => Some (fst e)) l'),
+    ("prepare_single_first",
+     'forall (single : list (bytes * handler)) (fns : list (Z * ((bytes -> bool) * handler))) (st : bytes * option bytes) (h : handler), assoc (prepare_key st) single = Some h -> resolve_prepare single fns st = (Some (h (fst st)), [EPrepareSingle (prepare_key st) (fst st)])'),
+    ("first_predicate_only",
+     'forall (single : list (bytes * handler)) (l1 : list (Z * ((bytes -> bool) * handler))) (i : Z) (pred : bytes -> bool) (h : handler) (l2 : list (Z * ((bytes -> bool) * handler))) (st : bytes * option bytes), assoc (prepare_key st) single = None -> Forall (fun e => fst (snd e) (fst st) = false) l1 -> pred (fst st) = true -> resolve_prepare single (l1 ++ (i, (pred, h)) :: l2) st = (Some (h (fst st)), [EPrepareFn i (fst st)])'),
+    ("no_matching_prepare",
+     'forall (single : list (bytes * handler)) (fns : list (Z * ((bytes -> bool) * handler))) (st : bytes * option bytes), assoc (prepare_key st) single = None -> Forall (fun e => fst (snd e) (fst st) = false) fns -> resolve_prepare single fns st = (None, [])'),
+    ("present_line_order",
+     'forall (pfns : list (Z * (bytes -> bool))) (pfile pint : list bytes) (path : bytes) (ws : list bytes) (crlf : bool) (rest : bytes), line_words_ok ws -> resolve_present present_parse pfns pfile pint path (render_line ws crlf ++ rest) = Ok (rest, map (fun x => EPresentFn (fst x)) (filter (fun x => snd x path) pfns) ++ (match path_extension path with Some e => if bmem e pfile then [EPresentFile e] else [] | None => [] end) ++ map (fun e => EPresentInternal (fst e) (snd e)) (filter (fun e => bmem (fst e) pint) (group_words None (nonempty_words ws))))'),
+    ("package_post_once",
+     'forall (X : Type) (l : list (Z * X)), resolve_package l = map (fun e => EPackage (fst e)) l /\\ resolve_post l = map (fun e => EPost (fst e)) l /\\ (desc l -> NoDup (resolve_package l) /\\ NoDup (resolve_post l))'),
+    ("serve_stages",
+     'forall (b : behaviours) (path : bytes), exists status body present_tr, serve present_parse b path = (Ok (status, body), snd (resolve_prime (b_prime b) (path, None)) ++ snd (resolve_prepare (b_single b) (b_prepare_fn b) (prime_state (b_prime b) (path, None))) ++ present_tr ++ map (fun e => EPackage (fst e)) (b_package b) ++ map (fun e => EPost (fst e)) (b_post b)) /\\ Forall is_present_event present_tr'),
+    ("run_order_after_edits",
+     'forall (parse : bytes -> outcome (option parsed)) (es : list pedit) (paths : list bytes), run_scenario model_step parse es paths = run_scenario ref_step parse es paths /\\ pc_desc (pconfig_build ref_step es)'),
+]
+
+RULE = ("Registry: for every history of add / add-with-no_override / remove on each of the five sorted extension vectors (and insert/remove on the three "
+        "hash maps) the listing after every step equals the reference map's: descending priority, equal priority replaces, no_override takes the "
+        "greatest free priority at or below the requested one (panic exactly when all down to i32::MIN are taken), remove deletes exactly that "
+        "priority, no edit touches another list. '!> ' line: for every line of the grammar the parser returns the names and arguments in order and "
+        "data_start is the index just after the LF; for arbitrary bytes no panic and data_start <= len. Run order: per request the trace of marker "
+        "extensions is Prime* (list order, each seeing the previous rewrite), the path-bound Prepare or else the first matching predicate-bound one, "
+        "the Present extensions (predicate-bound, file-extension, then those of the '!> ' line in line order with exactly their arguments), then "
+        "every Package and every Post extension once, all in descending priority.")
+ASSUMPTIONS = [
+    "priorities are i32 (the model uses Z and makes the checked_sub(1) at i32::MIN explicit); Id equality/order is by priority only, as impl Ord for Id",
+    "run-order theorems are about one request on a host without response cache and with the file system disabled (the fixture); cache hits skip "
+    "Prepare/Present by design (C03) and are outside this property's model",
+    "extension behaviours are arbitrary total functions of the request path in the theorems; the differential run instantiates them by the fixture menu "
+    "(rewrite rules, prefix predicates, static bodies) of harness/src/c16pipe.rs and Model/RunOrder.v",
+    "Path::extension is modelled on the fixture's path domain (segments of [a-z0-9.], no empty/./.. last segment)",
+    "slice::binary_search_by is the transcription of rustc 1.95's branch-free version (compared with the real one on arbitrary slices each run)",
+]
+TRUSTED = [
+    "hand transcription of add_sorted_list!/remove_sorted_list!, Extensions::{add,remove,get}_*, Extensions::new, resolve_* (src/extensions.rs), their call order in "
+    "src/lib.rs and of utils/src/extensions.rs (PresentExtensions::new and the two iterators), validated by the differential run",
+    "harness/src/c16.rs, harness/src/c16pipe.rs (marker extensions, loopback client: one connection per request, the server task is joined before the log is read)",
+]
+LEVEL_TEXT = ("Machine-checked Coq theorems (no axioms) over transcriptions of the registry macros on rustc 1.95's binary_search_by, of the '!> ' line "
+              "parser with its iterators, and of the resolve_* drivers: binary_search_by returns Ok i iff element i is the target and Err i iff i is the "
+              "unique insertion point on every strictly sorted slice; every history of add / no_override / remove for all priorities yields exactly the "
+              "reference map's listings (refinement by induction over the history, invariant: strictly descending), also for the whole Extensions value "
+              "from empty() and new(); the parser never panics and data_start <= len for arbitrary bytes, and for every line of the grammar (any words, any "
+              "runs of spaces, '&>' separators also trailing, LF or CRLF) it returns the names and arguments in order with data_start just after the LF; "
+              "Prime extensions run sequentially each seeing the previous rewrite, a path-bound Prepare wins and only the first matching predicate-bound one "
+              "runs, Present extensions run in line order with their arguments, every Package and Post runs exactly once in descending priority. The models "
+              "are tied to the repository on every run by a differential run of the real Extensions::{add,remove,get}_*, PresentExtensions and of real "
+              "requests through kvarn::handle_connection with marker extensions; each case is also compared with the executable specification "
+              "(reference map / token-level reading of the line / right-hand side of present_line_spec).")
+LEVEL_NOTE = ("Trusted: Coq kernel, extraction (ExtrOcamlBasic) reduced by an in-kernel recheck sample, the hand transcriptions as validated by the "
+              "differential run. Not covered: extensions run on a cache hit (none but Package/Post), HTTP/2 push (Post is skipped there by design), "
+              "async interleavings of two requests (extensions are immutable during serving), Path::extension outside the fixture's path domain, "
+              "next_back of the argument iterator. The three repaired defects are kept as _v0 refutation witnesses.")
+TECHNIQUE = ("Coq proof (loop invariant for binary search, refinement of the reference map for all histories, parser correctness for all inputs / all "
+             "grammar lines, run-order lemmas for arbitrary behaviours) + differential correspondence model vs. implementation (direct calls and real requests)")
